@@ -14,6 +14,10 @@ P = {
    "Every operation sequence up to depth 4 (quick) / 6 (thorough) over block events, lookups with a working or failing beacon node and clean runs, for three roots placed around the retention boundary, executed on the real cache + real scheduler + real chain time on a virtual clock and compared with a reference map after every step. Histories are the quantifier; bounded-depth exhaustive enumeration covers non-initial states.",
    "Trusted: virtual clock; scripted header provider; three roots / depth bound; sequential caller (overlap is C17).",
    SEQ, "DESIGN.md §6 C18"),
+ "C07": ("model_checking",
+   "Each of the 14 non-builder strategy implementations (best/majority/first/latest for attestation data, aggregate attestation, proposal, sync contribution, block root, header, signed block) is run against n=1..3 scripted nodes for every assignment of response kind x latency (x majority threshold), and for every order of same-instant events and select ties within the schedule bound; the oracle works on the observed return instant and the scripted arrival sets. Inputs, fault sequences and schedules are enumerated exhaustively within the alphabet.",
+   "Trusted: virtual clock (computation is instantaneous); latency alphabet {0,<soft,=soft,between,=hard,never,late}; n<=3; nodes honour cancellation except the explicit late kind; builder-bid strategies are C09.",
+   MC + " (n<=2 preemption-bounded, n=3 deviation-bounded)", "DESIGN.md §6 C07"),
 }
 checks = []
 for pid in ids:
